@@ -71,9 +71,10 @@ class Spec(PropSpec):
     pid = "C10"
     subsys = "Fs"
     props_file = "C10.v"
-    theorems = ["c10_refines", "c10_sync_is_invisible", "c10_nonvacuous", "c10_time_is_invisible", "c10_hosts_isolated",
+    theorems = ["c10_refines_partial", "c10_sync_is_invisible", "c10_nonvacuous", "c10_time_is_invisible", "c10_hosts_isolated",
                 "c10_rename_file_refuted", "c10_rename_twice_refuted", "c10_rename_self_refuted",
-                "c10_rename_dir_refuted", "c10_stale_handle_refuted", "c10_recreate_refuted",
+                "c10_rename_dir_refuted", "c10_rename_cross_resurrect_refuted", "c10_rename_rmdir_refuted",
+                "c10_rename_again_refuted", "c10_rename_clean_example", "c10_stale_handle_refuted", "c10_recreate_refuted",
                 "c10_root_op_refuted"]
     coq_targets = ["C10.vo"]
     consts = FS_CONSTS
@@ -92,8 +93,9 @@ class Spec(PropSpec):
         "ENOTDIR / EISDIR for a lookup that meets the wrong kind of entry may be reported by the implementation as NotFound",
         "io_uring front-end is covered by C18",
     ]
-    partial_note = ("c10_refines covers every operation except create_dir_all / remove_dir_all (correspondence + oracle only) "
-                    "and holds outside the known classes RenameFile, RenameSelf, RenameDir, StaleHandle, Recreate, "
+    partial_note = ("c10_refines_partial covers every operation except create_dir_all / remove_dir_all and successful renames of "
+                    "regular files (correspondence + oracle only; the oracle asserts the renames of data-synced files that are "
+                    "left alone until the rename is flushed); it holds outside the classes RenameFile, RenameSelf, RenameDir, StaleHandle, Recreate, "
                     "RootOp, each of which has a _refuted theorem with a witness replayed on the crate")
 
     def gen_cases(self, ctx):
@@ -116,7 +118,7 @@ class Spec(PropSpec):
             c["flavour"] += "+tokio"
             cases.append(c)
         # renames of files whose data is synced and that are left alone until the rename is flushed
-        # (outside every known class; asserted by the oracle, not covered by c10_refines)
+        # (outside every known class; asserted by the oracle, not covered by c10_refines_partial)
         cases += [F.gen_clean_rename(rng, syncs=0.25, setup_sync=rng.choice([0, 1, 2])) for _ in range(120 * k)]
         # two hosts of a real turmoil::Sim with identical path names (per-host Fs entered by the Sim)
         for _ in range(40 * k):
